@@ -20,7 +20,9 @@ import traceback
 from typing import Any, Callable, Iterable
 
 VERIF = os.path.dirname(os.path.dirname(os.path.abspath(__file__)))
-REPO_SRC = "/repo/src"
+# the repository under test; VF_REPO_SRC lets tools/run_all_seeds.sh point the checks at a scratch copy (its path must
+# still contain "/repo/src": traceback filters look for that)
+REPO_SRC = os.environ.get("VF_REPO_SRC", "/repo/src")
 EVIDENCE_SCHEMA = "/root/.vp/EVIDENCE.schema.json"
 
 
